@@ -414,6 +414,23 @@ func inLoopAfter(fd *ast.FuncDecl, stmt ast.Node, decl token.Pos) bool {
 func (ev *tplEval) evalList(fc *fctx, e ast.Expr) (Sketch, bool) {
 	info := fc.pkg.TypesInfo
 	e = ast.Unparen(e)
+	// a literal list: one of its elements
+	if lit, ok := e.(*ast.CompositeLit); ok {
+		var opts []Sketch
+		for _, el := range lit.Elts {
+			if kv, isKV := el.(*ast.KeyValueExpr); isKV {
+				el = kv.Value
+			}
+			opts = append(opts, ev.eval(fc, el))
+		}
+		switch len(opts) {
+		case 0:
+			return Sketch{}, true
+		case 1:
+			return opts[0], true
+		}
+		return Sketch{Alt{opts}}, true
+	}
 	if call, ok := e.(*ast.CallExpr); ok {
 		if fn := calleeOf(info, call); fn != nil {
 			if fi := ev.w.Funcs[fn]; fi != nil {
